@@ -162,7 +162,7 @@ func (a *FuncAction) Exec(ctx context.Context, bs Bindings, props StepProps) (*E
 
 	exe, err := a.F(ctx, bs, props)
 
-	if Exp_PermanentBindings {
+	if Exp_PermanentBindings && exe != nil && exe.Bs != nil {
 		for p, v := range permanent {
 			exe.Bs[p] = v
 		}
